@@ -495,7 +495,7 @@ impl Property for C16 {
         40_000
     }
     fn random_cases(&self, tier: Tier) -> u64 {
-        tier.pick(40_000, 500_000)
+        tier.pick(800_000, 4_000_000)
     }
     fn run(&self, t: &mut Tape, ctx: &mut CaseCtx) -> Verdict {
         let (nodes, defs) = gen_cond(t);
